@@ -265,7 +265,28 @@ class IGen:
         if k < 0.87:
             self.info.add("include_list")
             names = [self.pick(["nope", "nope2"] + incs) for _ in range(r.randint(1, 3))]
-            return ["include", ["list", [C(n) for n in names]], wc, r.random() < 0.5]
+            items = []
+            for n in names:
+                f = r.random()
+                if f < 0.6 or not n.startswith("inc"):
+                    items.append(C(n))
+                elif f < 0.75:
+                    # computed names: "inc" ~ sfx, cfg.widget, names[0], conditional
+                    data["sfx"] = n[3:]
+                    items.append(["bin", "~", C("inc"), N("sfx")])
+                    self.info.add("include_computed_name")
+                elif f < 0.85:
+                    data["cfg"] = {"widget": n}
+                    items.append(["attr", N("cfg"), "widget"])
+                    self.info.add("include_computed_name")
+                elif f < 0.93:
+                    data["tnames"] = [n]
+                    items.append(["item", N("tnames"), C(0)])
+                    self.info.add("include_computed_name")
+                else:
+                    items.append(["cond", C(n), C(True), C("nope")])
+                    self.info.add("include_computed_name")
+            return ["include", ["list", items], wc, r.random() < 0.5]
         self.info.add("include_object")
         data["tobj"] = {"$tpl": self.pick(incs)}
         return ["include", N("tobj"), wc, False]
